@@ -15,7 +15,7 @@ then the call does not return normally, which `FwdCall.h` excludes (`draw_window
 import OsmoVerif.Lemmas.WorldFwd
 
 namespace OsmoVerif.Props.C10
-open OsmoVerif OsmoVerif.World OsmoVerif.Spec
+open OsmoVerif OsmoVerif.World OsmoVerif.Spec OsmoVerif.World.Examples
 
 variable {w : World} {k j : Nat} {s : Trxd.TxMsg} {r src : Trx} {fn : Int} {bits : List Nat}
   {rx : Trxd.RxMsg} {w' : World} {dk : List Dgram}
@@ -201,6 +201,47 @@ and TSC set 0 (so the reported values always pass the TSC / TSC-set range checks
 theorem seqs_ranges : ∀ e ∈ Gen.World.trainSeqs,
     ((e.2.2.1 = "NORMAL" ∧ e.2.2.2.1.length = 26) ∨ (e.2.2.1 = "SYNC" ∧ e.2.2.2.1.length = 64) ∨
      (e.2.2.1 = "ACCESS" ∧ e.2.2.2.1.length = 41)) ∧ e.2.1 ≤ 7 ∧ e.2.2.2.2 = 0 := by
+  decide +kernel
+
+/-! ### non-vacuity (`World.Examples`): the BTS (0) transmits a normal burst with NB_TS3 in frame 52
+to transceiver 6 (`msFake`: version 1, FAKE_RSSI −80 ± 5, FAKE_TOA 100 ± 20, FAKE_CI 100 ± 10) -/
+
+/-- the hypotheses (`FwdCall`, not suppressed) are satisfiable -/
+example : ∃ rx w' dk, FwdCall world 6 0 (burst 52) msFake bts 52 nbBits rx w' dk ∧
+    suppressed bts msFake 52 = false := by
+  have hrx := trans_burst (fwdInput bts (burst 52)) msFake.hdrVer nbBits rfl (by decide +kernel)
+  obtain ⟨⟨w', dk⟩, h⟩ := exists_of_isOk (handleDataMsg world 6 0 (fwdInput bts (burst 52))
+      { Trxd.RxMsg.fresh with fn := (fwdInput bts (burst 52)).fn, tn := (fwdInput bts (burst 52)).tn,
+                              ver := msFake.hdrVer, burst := some (nbBits.map softOf) })
+    (by decide +kernel)
+  exact ⟨_, w', dk, ⟨rfl, rfl, by decide, rfl, rfl, by decide +kernel, hrx, h⟩, by decide⟩
+
+/-- what the model emits there: one datagram of 11 + 148 octets to the peer of transceiver 6 with
+version 1 / TN 2, FN 52, RSSI −79 (inside −80 ± 5), ToA256 87 (inside 100 ± 20), MTS = GMSK, set 0,
+TSC 3, C/I 101 (inside 100 ± 10), first soft bits +127 (octet 0) … -/
+example : ((outOf (forwardMsg world 0 (burst 52))).filter (toDataPeer msFake)).map
+    (fun d => (d.data.length, d.data.take 14)) =
+    [(159, [18, 0, 0, 0, 52, 79, 0, 87, 3, 0, 101, 0, 0, 0])] := by decide +kernel
+
+/-- a version-0 recipient (transceiver 4, frame 51 is odd: no loss): 8 + 148 + 2 octets, RSSI
+50 − 0 − 10 − 110 = −70, ToA256 0, the last soft bits (tail 0 ↦ +127 = octet 0) and two padding octets -/
+example : ((outOf (forwardMsg world 0 (burst 51))).filter (toDataPeer msDrop)).map
+    (fun d => (d.data.length, d.data.take 8, d.data.drop 153)) =
+    [(158, [2, 0, 0, 0, 51, 70, 0, 0], [0, 0, 0, 0, 0])] := by decide +kernel
+
+/-- training sequence detection on that burst: NB_TS3 is the only table sequence present -/
+example : trainSeqPick nbBits = some (3, 0) ∧
+    (∀ e' ∈ Gen.World.trainSeqs, presentAt e' nbBits →
+      e' = ("NB_TS3", 3, "NORMAL", [0,1,0,0,0,1,1,1,1,0,1,1,0,1,0,0,0,1,0,0,0,1,1,1,1,0], 0)) := by
+  constructor <;> decide +kernel
+
+/-- the "only one present" hypothesis of `tsc_detect_*` is forced: a normal burst with NB_TS3 whose
+payload happens to carry AB_TS0 at bits 8..48 is reported as TSC 0 (access-burst sequences come
+first in the enumeration) -/
+example : trainSeqPick (nbLayout
+    ([0,0,0,0,0] ++ [0,1,0,0,1,0,1,1,0,1,1,1,1,1,1,1,1,0,0,1,1,0,0,1,1,0,1,0,1,0,1,0,0,0,1,1,1,1,0,0,0] ++
+      List.replicate 11 0) 0
+    [0,1,0,0,0,1,1,1,1,0,1,1,0,1,0,0,0,1,0,0,0,1,1,1,1,0] 1 (List.replicate 57 0)) = some (0, 0) := by
   decide +kernel
 
 end OsmoVerif.Props.C10
